@@ -279,13 +279,21 @@ struct TraceCheck {
     max_depth: usize,
     /// (index in trace, description)
     mismatch: Option<(usize, String)>,
+    /// a `Store` executed with different frame-relative locals counts on different visits:
+    /// (function, pc, count seen first, count seen now, trace index)
+    misaligned: Option<(usize, usize, usize, usize, usize)>,
+    stores_checked: usize,
 }
 
 /// Replays the trace against the inferred annotations, reconstructing each frame's entry base
 /// (stack length at function entry minus the argument).
 fn check_trace(functions: &[Function], anns: &[Vec<Option<Ann>>], trace: &Trace) -> TraceCheck {
     let mut shadow: Vec<Shadow> = vec![];
-    let mut res = TraceCheck { points: 0, max_depth: 0, mismatch: None };
+    let mut res = TraceCheck { points: 0, max_depth: 0, mismatch: None, misaligned: None, stores_checked: 0 };
+    // slot numbering: the compiler gives the variable bound by a `Store` the index `local_count`
+    // it has at that point; the VM appends at the runtime count. They agree only if every
+    // execution of a given `Store` happens at the same frame-relative count.
+    let mut store_count: HashMap<(usize, usize), usize> = HashMap::new();
     // pops exhausted frames; returns false if the shadow stack ran out
     fn settle(shadow: &mut Vec<Shadow>, functions: &[Function]) {
         while let Some(top) = shadow.last() {
@@ -399,6 +407,18 @@ fn check_trace(functions: &[Function], anns: &[Vec<Option<Ann>>], trace: &Trace)
         if l < a.l {
             res.mismatch = Some((k, format!("locals: f{f} pc{pc} frame-relative locals={l} < ann.locals={}", a.l)));
             return res;
+        }
+        if matches!(functions[f].instructions[pc], Instruction::Store) {
+            res.stores_checked += 1;
+            match store_count.get(&(f, pc)) {
+                None => {
+                    store_count.insert((f, pc), l);
+                }
+                Some(&first) if first != l && res.misaligned.is_none() => {
+                    res.misaligned = Some((f, pc, first, l, k));
+                }
+                _ => {}
+            }
         }
         res.points += 1;
     }
@@ -562,6 +582,17 @@ fn process_source(cx: &mut Ctx, ev: &mut Ev, src: &Source, rng: &mut Rng, run_it
                            "function": f, "pc": pc, "code": dump_function(&bc.functions[f]),
                            "trace_tail": trace[k.saturating_sub(12)..=k].to_vec()}),
                     false,
+                );
+            }
+            ev.add("stores-checked", tc.stores_checked as u64);
+            if let Some((f, pc, first, now, k)) = tc.misaligned {
+                ev.violation(
+                    "run kind=misaligned-local",
+                    &format!("{}: the Store at f{f} pc{pc} binds local slot {first} on one execution and slot {now} on another — compile-time slot numbers cannot match both", src.origin),
+                    json!({"origin": src.origin, "source": src.text, "function": f, "pc": pc,
+                           "locals_at_first_visit": first, "locals_at_this_visit": now, "trace_index": k,
+                           "code": dump_function(&bc.functions[f])}),
+                    true,
                 );
             }
             match &end {
